@@ -1,6 +1,7 @@
 package sa
 
 import (
+	"fmt"
 	"go/token"
 	"go/types"
 	"sort"
@@ -78,6 +79,15 @@ type Abs struct {
 	Cut   *CutInfo
 	Taint map[string]string
 	First *Abs
+	// Flds: for struct values, the abstract value of individual fields where known separately (a record built
+	// in a local variable and passed by value keeps its fields apart)
+	Flds map[*types.Var]*Abs
+}
+
+// fldKey: the field fv of the struct held in the local variable al.
+type fldKey struct {
+	al *ssa.Alloc
+	fv *types.Var
 }
 
 type CutInfo struct {
@@ -113,6 +123,12 @@ func (a *Abs) clone() *Abs {
 	if a.First != nil {
 		n.First = a.First.clone()
 	}
+	if a.Flds != nil {
+		n.Flds = map[*types.Var]*Abs{}
+		for k, v := range a.Flds {
+			n.Flds[k] = v.clone()
+		}
+	}
 	return &n
 }
 
@@ -139,6 +155,14 @@ func (a *Abs) String() string {
 	}
 	if a.Cut != nil {
 		s += " cut"
+	}
+	if len(a.Flds) > 0 {
+		var ks []string
+		for k, v := range a.Flds {
+			ks = append(ks, k.Name()+"={"+v.String()+"}")
+		}
+		sort.Strings(ks)
+		s += " fields[" + strings.Join(ks, " ") + "]"
 	}
 	return s
 }
@@ -203,8 +227,16 @@ func eqAbs(a, b *Abs) bool {
 	if (a.First == nil) != (b.First == nil) {
 		return false
 	}
-	if a.First != nil {
-		return eqAbs(a.First, b.First)
+	if a.First != nil && !eqAbs(a.First, b.First) {
+		return false
+	}
+	if len(a.Flds) != len(b.Flds) {
+		return false
+	}
+	for k, v := range a.Flds {
+		if w, ok := b.Flds[k]; !ok || !eqAbs(v, w) {
+			return false
+		}
 	}
 	return true
 }
@@ -248,6 +280,16 @@ func join(a, b *Abs) *Abs {
 	}
 	if a.First != nil && b.First != nil {
 		n.First = join(a.First, b.First)
+	}
+	if a.Flds != nil && b.Flds != nil {
+		for k, v := range a.Flds {
+			if w, ok := b.Flds[k]; ok {
+				if n.Flds == nil {
+					n.Flds = map[*types.Var]*Abs{}
+				}
+				n.Flds[k] = join(v, w)
+			}
+		}
 	}
 	return n
 }
@@ -379,6 +421,8 @@ type Flow struct {
 	local   map[ssa.Value]bool
 	overlay map[ssa.Value]*Abs
 	ownRet  []*Abs                      // a context's own return values
+	depth   int                         // nesting depth of a context (0: a context of the top-level flow)
+	ocell   map[fldKey]*Abs             // a context's own cells for fields of its local struct variables
 	ctxSite ssa.CallInstruction         // the call site this context stands for
 	polyOf  map[ssa.Value]*ssa.Function // value -> the polyvariant helper defining it
 	// NoTaintCallee: external callees whose results never carry their arguments' text
@@ -391,48 +435,68 @@ func (p *Prog) NewFlow(funcs []*ssa.Function) *Flow {
 	for _, fn := range funcs {
 		inSet[fn] = true
 	}
-	for _, fn := range funcs {
-		if fn.Parent() != nil || fn.Object() == nil || fn.Object().Exported() || addrTaken(fn) || len(fn.AnonFuncs) > 0 {
-			continue
-		}
-		sites := p.Callers(fn)
-		if len(sites) < 2 || len(sites) > 40 {
-			continue
-		}
-		hasStr, okSites, recursive := false, true, false
-		for _, pr := range fn.Params {
-			if isStringType(pr.Type()) {
-				hasStr = true
+	for round := 0; round < 4; round++ {
+		for _, fn := range funcs {
+			if f.poly[fn] || fn.Parent() != nil || fn.Object() == nil || fn.Object().Exported() || addrTaken(fn) || len(fn.AnonFuncs) > 0 {
+				continue
 			}
-		}
-		for _, cs := range sites {
-			if cs.Common().IsInvoke() || !inSet[cs.Parent()] || cs.Parent() == fn {
-				okSites = false
+			var sites []ssa.CallInstruction
+			for _, cs := range p.Callers(fn) {
+				if cs.Parent().Synthetic != "" && len(p.Callers(cs.Parent())) == 0 {
+					continue // the compiler's pointer-receiver wrapper of a value method, never called
+				}
+				sites = append(sites, cs)
 			}
-			if _, isCall := cs.(*ssa.Call); !isCall {
-				okSites = false
+			if len(sites) > 40 {
+				continue
 			}
-		}
-		for _, cs := range CallSites(fn) {
-			if cs.Common().StaticCallee() == fn {
-				recursive = true
-			}
-		}
-		if hasStr && okSites && !recursive {
-			f.poly[fn] = true
-			for _, b := range fn.Blocks {
-				for _, in := range b.Instrs {
-					if v, ok := in.(ssa.Value); ok {
-						f.polyOf[v] = fn
-					}
+			if len(sites) < 2 {
+				// a helper with one caller is worth its own context only when that caller has several
+				if len(sites) == 0 || !f.poly[sites[0].Parent()] {
+					continue
 				}
 			}
+			hasStr, okSites, recursive := false, true, false
 			for _, pr := range fn.Params {
-				f.polyOf[pr] = fn
+				if isStringType(pr.Type()) {
+					hasStr = true
+				}
+			}
+			for _, cs := range sites {
+				if cs.Common().IsInvoke() || !inSet[cs.Parent()] || cs.Parent() == fn {
+					okSites = false
+				}
+				if _, isCall := cs.(*ssa.Call); !isCall {
+					okSites = false
+				}
+			}
+			for _, cs := range CallSites(fn) {
+				if cs.Common().StaticCallee() == fn {
+					recursive = true
+				}
+			}
+			if hasStr && okSites && !recursive {
+				f.poly[fn] = true
+				for _, b := range fn.Blocks {
+					for _, in := range b.Instrs {
+						if v, ok := in.(ssa.Value); ok {
+							f.polyOf[v] = fn
+						}
+					}
+				}
+				for _, pr := range fn.Params {
+					f.polyOf[pr] = fn
+				}
 			}
 		}
 	}
 	return f
+}
+
+// Ctx: the context in which the polyvariant helper called at site is
+// evaluated, when there is one.
+func (f *Flow) Ctx(site ssa.CallInstruction) *Flow {
+	return f.ctxs[site]
 }
 
 func (p *Prog) newFlow0(funcs []*ssa.Function) *Flow {
@@ -518,8 +582,8 @@ func (f *Flow) set(v ssa.Value, a *Abs) {
 
 func (f *Flow) markChanged() {
 	f.changed = true
-	if f.parent != nil {
-		f.parent.changed = true
+	for p := f.parent; p != nil; p = p.parent {
+		p.changed = true
 	}
 }
 
@@ -564,6 +628,93 @@ func (f *Flow) memWriterKeys(w ssa.Value) []interface{} {
 }
 
 // containerKey: the abstract container an address or aggregate value denotes.
+// structAlloc: addr is a local struct variable whose address does not escape
+// (it is only field-addressed, loaded and stored as a whole).
+func structAlloc(addr ssa.Value) (*ssa.Alloc, bool) {
+	al, ok := addr.(*ssa.Alloc)
+	if !ok || !isStructAlloc(al) {
+		return nil, false
+	}
+	if _, isSt := al.Type().Underlying().(*types.Pointer).Elem().Underlying().(*types.Struct); !isSt {
+		return nil, false
+	}
+	for _, ref := range *al.Referrers() {
+		switch t := ref.(type) {
+		case *ssa.DebugRef, *ssa.FieldAddr:
+		case *ssa.UnOp:
+			if t.Op != token.MUL {
+				return nil, false
+			}
+		case *ssa.Store:
+			if t.Addr != ssa.Value(al) {
+				return nil, false
+			}
+		default:
+			return nil, false
+		}
+	}
+	return al, true
+}
+
+// fieldWritten: the local struct variable al is stored as a whole, or its
+// field number i is stored through a field address.
+func fieldWritten(al *ssa.Alloc, i int) bool {
+	for _, ref := range *al.Referrers() {
+		switch t := ref.(type) {
+		case *ssa.Store:
+			return true
+		case *ssa.FieldAddr:
+			if t.Field != i {
+				continue
+			}
+			for _, r2 := range *t.Referrers() {
+				if st, ok := r2.(*ssa.Store); ok && st.Addr == ssa.Value(t) {
+					return true
+				}
+				if _, ok := r2.(*ssa.Store); !ok {
+					if _, isLoad := r2.(*ssa.UnOp); !isLoad {
+						if _, isDbg := r2.(*ssa.DebugRef); !isDbg {
+							return true // the field's address goes elsewhere
+						}
+					}
+				}
+			}
+		}
+	}
+	return false
+}
+
+func (f *Flow) fldCell(k fldKey) (*Abs, bool) {
+	if f.local != nil && f.local[k.al] {
+		a, ok := f.ocell[k]
+		return a, ok
+	}
+	a, ok := f.Cell[k]
+	return a, ok
+}
+
+func (f *Flow) addFldCell(k fldKey, a *Abs) {
+	if a == nil || a.Bot {
+		return
+	}
+	if f.local != nil && f.local[k.al] {
+		if f.ocell == nil {
+			f.ocell = map[fldKey]*Abs{}
+		}
+		old, ok := f.ocell[k]
+		n := a
+		if ok {
+			n = join(old, a)
+		}
+		if !ok || !eqAbs(old, n) {
+			f.ocell[k] = n
+			f.markChanged()
+		}
+		return
+	}
+	f.addCell(k, a)
+}
+
 func (f *Flow) containerKey(v ssa.Value) interface{} {
 	for i := 0; i < 8; i++ {
 		switch t := v.(type) {
@@ -605,6 +756,44 @@ func (f *Flow) Run() {
 			return
 		}
 	}
+}
+
+// nested: the context of a polyvariant helper called at site from inside this
+// context, bound to the given arguments and evaluated to its fixpoint.
+func (f *Flow) nested(callee *ssa.Function, site ssa.CallInstruction, args []*Abs) *Flow {
+	cx := f.ctxs[site]
+	if cx == nil {
+		cx = &Flow{p: f.p, funcs: f.funcs, Val: f.Val, Cell: f.Cell, Ret: f.Ret, Source: f.Source, NoTaint: f.NoTaint,
+			poly: f.poly, ctxs: map[ssa.CallInstruction]*Flow{}, polyOf: f.polyOf, parent: f, local: map[ssa.Value]bool{}, overlay: map[ssa.Value]*Abs{}, ctxSite: site, depth: f.depth + 1}
+		for _, b := range callee.Blocks {
+			for _, in := range b.Instrs {
+				if v, ok := in.(ssa.Value); ok {
+					cx.local[v] = true
+				}
+			}
+		}
+		for _, pr := range callee.Params {
+			cx.local[pr] = true
+		}
+		f.ctxs[site] = cx
+	}
+	for i, pr := range callee.Params {
+		if i < len(args) {
+			cx.set(pr, args[i])
+		}
+	}
+	for it := 0; it < 20; it++ {
+		cx.changed = false
+		for _, b := range callee.Blocks {
+			for _, in := range b.Instrs {
+				cx.stepInstr(callee, b, in)
+			}
+		}
+		if !cx.changed {
+			break
+		}
+	}
+	return cx
 }
 
 // stepPoly evaluates a polyvariant helper once per call site, each in its own
@@ -788,6 +977,18 @@ func (f *Flow) stepInstr(fn *ssa.Function, b *ssa.BasicBlock, in ssa.Instruction
 		v := t.(ssa.Value)
 		k := f.containerKey(v)
 		a := f.cell(k)
+		if fa, ok := t.(*ssa.FieldAddr); ok {
+			if al, isL := structAlloc(fa.X); isL {
+				fv, _ := fieldOf(fa)
+				if own, has := f.fldCell(fldKey{al, fv}); has {
+					a = own
+				} else if fieldWritten(al, fa.Field) {
+					a = bot() // nothing has flowed into this variable's field yet
+				} else if isStringType(fv.Type()) {
+					a = constAbs("")
+				}
+			}
+		}
 		if ia, ok := t.(*ssa.IndexAddr); ok {
 			base := f.get(ia.X)
 			if idx, okc := constInt(ia.Index); okc && idx == 0 && base.First != nil {
@@ -799,6 +1000,10 @@ func (f *Flow) stepInstr(fn *ssa.Function, b *ssa.BasicBlock, in ssa.Instruction
 		f.set(v, a)
 	case *ssa.Field:
 		fv, _ := fieldOf(t)
+		if own, has := f.get(t.X).Flds[fv]; has && own != nil {
+			f.set(t, own)
+			break
+		}
 		f.set(t, join(f.cell(fv), taintOnly(false, f.get(t.X))))
 	case *ssa.Index:
 		f.set(t, elemOf(f.get(t.X)))
@@ -814,6 +1019,37 @@ func (f *Flow) stepInstr(fn *ssa.Function, b *ssa.BasicBlock, in ssa.Instruction
 			if g, ok := t.X.(*ssa.Global); ok {
 				a = f.cell(g)
 			}
+			if al, isL := structAlloc(t.X); isL {
+				// the record as a whole: its fields stay apart
+				st := al.Type().Underlying().(*types.Pointer).Elem().Underlying().(*types.Struct)
+				var flds map[*types.Var]*Abs
+				for i := 0; i < st.NumFields(); i++ {
+					if own, has := f.fldCell(fldKey{al, st.Field(i)}); has {
+						if flds == nil {
+							flds = map[*types.Var]*Abs{}
+						}
+						flds[st.Field(i)] = own
+					} else if carriesText(st.Field(i).Type()) {
+						if flds == nil {
+							flds = map[*types.Var]*Abs{}
+						}
+						if fieldWritten(al, i) {
+							// written, but nothing has flowed there yet
+							flds[st.Field(i)] = bot()
+						} else if isStringType(st.Field(i).Type()) {
+							// never written: the zero value
+							flds[st.Field(i)] = constAbs("")
+						}
+					}
+				}
+				if flds != nil {
+					a = a.clone()
+					if a.Bot {
+						a = top().withNoTaint()
+					}
+					a.Flds = flds
+				}
+			}
 			f.set(t, a)
 		case token.ARROW:
 			f.set(t, join(f.cell(f.containerKey(t.X)), chanContent(f, t.X)))
@@ -826,6 +1062,24 @@ func (f *Flow) stepInstr(fn *ssa.Function, b *ssa.BasicBlock, in ssa.Instruction
 		v := f.At(t.Val, b)
 		k := f.containerKey(t.Addr)
 		f.addCell(k, v)
+		if fa, ok := t.Addr.(*ssa.FieldAddr); ok {
+			if al, isL := structAlloc(fa.X); isL {
+				fv, _ := fieldOf(fa)
+				f.addFldCell(fldKey{al, fv}, v)
+			}
+		}
+		if al, isL := structAlloc(t.Addr); isL && v != nil && !v.Bot {
+			st := al.Type().Underlying().(*types.Pointer).Elem().Underlying().(*types.Struct)
+			for i := 0; i < st.NumFields(); i++ {
+				fv := st.Field(i)
+				if own, has := v.Flds[fv]; has {
+					f.addFldCell(fldKey{al, fv}, own)
+				} else if carriesText(fv.Type()) {
+					// unknown field of the stored record: whatever the field may hold anywhere
+					f.addFldCell(fldKey{al, fv}, join(f.cell(fv), taintOnly(false, v)))
+				}
+			}
+		}
 		// stores through a pointer parameter / loaded pointer also reach the pointee cell of that value
 		f.addValPointee(t.Addr, v)
 	case *ssa.MapUpdate:
@@ -940,8 +1194,14 @@ func (f *Flow) extract(t *ssa.Extract) *Abs {
 			if f.poly[callee] {
 				// the result of this call site's own context
 				root := f
-				if f.parent != nil {
-					root = f.parent
+				for root.parent != nil {
+					root = root.parent
+				}
+				if f.parent != nil && f.depth < 3 {
+					if cx := f.ctxs[tp]; cx != nil && t.Index < len(cx.ownRet) && cx.ownRet[t.Index] != nil {
+						return translateCut(cx.ownRet[t.Index], callee, &tp.Call)
+					}
+					return bot()
 				}
 				if cx := root.ctxs[tp]; cx != nil && t.Index < len(cx.ownRet) && cx.ownRet[t.Index] != nil {
 					return translateCut(cx.ownRet[t.Index], callee, &tp.Call)
@@ -1096,8 +1356,16 @@ func (f *Flow) call(fn *ssa.Function, b *ssa.BasicBlock, site ssa.CallInstructio
 		if f.poly[callee] {
 			// bound per context in stepPoly; the result is that context's own return value
 			root := f
-			if f.parent != nil {
-				root = f.parent
+			for root.parent != nil {
+				root = root.parent
+			}
+			if f.parent != nil && f.depth < 3 && !cc.IsInvoke() {
+				// a helper called from inside a helper's context: its own nested context, bound to what this
+				// context passes (the shared per-site context joins over all of the outer helper's callers)
+				if cx := f.nested(callee, site, args); len(cx.ownRet) == 1 && cx.ownRet[0] != nil {
+					acc = join(acc, translateCut(cx.ownRet[0], callee, cc))
+				}
+				continue
 			}
 			if cx := root.ctxs[site]; cx != nil && len(cx.ownRet) == 1 && cx.ownRet[0] != nil {
 				acc = join(acc, translateCut(cx.ownRet[0], callee, cc))
@@ -1759,4 +2027,21 @@ func (p *Prog) mappedInPlace(v ssa.Value) *ssa.BasicBlock {
 		return exit
 	}
 	return nil
+}
+
+// DebugDump lists a context's own values and those of its nested contexts.
+func (f *Flow) DebugDump() string {
+	var out []string
+	for v, a := range f.overlay {
+		out = append(out, fmt.Sprintf("%s=%s", v.Name(), a))
+	}
+	for k, a := range f.ocell {
+		out = append(out, fmt.Sprintf("cell(%s.%s)=%s", k.al.Name(), k.fv.Name(), a))
+	}
+	sort.Strings(out)
+	s := " || " + strings.Join(out, "; ")
+	for site, cx := range f.ctxs {
+		s += " || nested@" + site.String() + ":" + cx.DebugDump()
+	}
+	return s
 }
